@@ -1,5 +1,5 @@
 (* C13 correspondence cases: what dukebox::merge::merge answered, to be compared with the model *)
-From FB Require Export C13.Model Base.Run.
+From FB Require Export C13.Model C13.ModelAnn Base.Run.
 
 (* the opaque components of a plain field / method / class as the harness prints them by name (its
    interner gives "None" the number 1 and "[]" the number 2 in every case) *)
@@ -98,7 +98,15 @@ Inductive case :=
 | CLayout (cls fld mth : list str)
     (* the fields of duke's ClassFile / Field / Method the harness projects one by one into c_rest /
        m_rest, in its order: must be the rows of the regenerated tables the model keeps opaque *)
-| CNames (names : list (str * (bool * bool * N))).
+| CNames (names : list (str * (bool * bool * N)))
+| CAnnSide (sd : side) (t : atree)
+    (* round 7: the whole annotation tree the real merge appended to a class / field / method that only
+       side [sd] has (printed structurally, not through the harness' proj_ann) *)
+| CAnnItfs (a b : list str) (t : option atree)
+    (* the whole tree the real class_merger_merge appended to the invisible annotations of a class whose
+       two versions have the interface lists [a] and [b] (None: nothing appended) *)
+| CAnnRead (t : atree) (p : ann).
+    (* a tree (real or a near miss) and what the harness' proj_ann reads it as *)
     (* entry names with what the harness' own reading of the rules says: is a signature file, is a
        bundled server library, kind of a zip entry of that name (0 directory, 1 class, 2 other) *)
 
@@ -122,4 +130,11 @@ Definition check (c : case) : bool :=
           Bool.eqb (is_signature n) sg && Bool.eqb (is_server_library n) lb
           && N.eqb (match zip_kind n with KDir => 0 | KClass => 1 | KOther => 2 end) k
         end) l
+  | CAnnSide sd t => atree_eqb (sided_annotation sd) t
+  | CAnnItfs a b t => oeqb atree_eqb (pushed_itfs_tree a b) t
+  | CAnnRead t p =>
+      match read_ann 0 t, p with
+      | AOther _, AOther _ => true
+      | x, y => ann_eqb x y
+      end
   end.
